@@ -71,6 +71,9 @@ mod late_join_set;
 mod watched_path;
 mod watchexec;
 
+#[cfg(watchexec_verif)]
+pub mod verif;
+
 #[doc(inline)]
 pub use crate::{
 	id::Id,
